@@ -92,7 +92,8 @@ PROPS = {
                 "model": True
             }
         ],
-        "level": "proof on the expression fragment (partial); differential oracle on the whole grammar",
+        "level": "proof",
+        "notes": ["proof on the expression fragment (partial); differential oracle on the whole grammar"],
         "trusted": [
             "Gen/Prec.v regenerated on every run from sqlparser/sql.y (%left/%right/%nonassoc table, %prec of the prefix rules), the compiled operator strings/ValType enum of sqlparser and sqltypes.SQLEncodeMap/SQLDecodeMap",
             "modelled, not verified: the tokenizer outside string literals (identifier quoting, numbers, comments, keywords); the model's printer emits TOKENS and is tied to Format+Tokenizer by replay (OPrint), the model's parser to sql.go (goyacc output) by replay (OParse)",
